@@ -116,15 +116,23 @@ def c02Store (c : Cfg) (ev : Ev) (b a : Dump) : List Fail :=
   let removed := b.byh.drop k
   let added := a.byh.drop k
   let excused := excusedRollback c hs b.byh a.byh
+  -- the offered branch WAS strictly heavier, but the loop stopped at the next checkpoint
+  -- (`break`) and only the part up to it was stored
+  let hs' := hs.dropWhile (fun h => b.byh.contains h)
+  let truncated := added != [] && isPrefix added hs' && added.length < hs'.length &&
+    decide (sumWork c.tbl hs' > sumWork c.tbl removed) &&
+    c.cps.any (fun cp => cp.height + 1 == a.byh.length && tipId a.byh == cp.id)
+  let lighterShape := if truncated then "reorg-truncated-at-checkpoint" else "reorg-not-heavier"
+  let decreasedShape := if truncated then "reorg-truncated-at-checkpoint" else "work-decreased"
   (if removed != [] && !excused then
     (if decide (k - 1 < floorAt c.cps (tipHeight b.byh)) then
       [("reorg-below-checkpoint", s!"headers from height {k} replaced although the chain had passed the checkpoint at {floorAt c.cps (tipHeight b.byh)}")] else []) ++
     (if !(decide (sumWork c.tbl added > sumWork c.tbl removed)) then
-      [("reorg-not-heavier", s!"displaced work {sumWork c.tbl removed}, new work {sumWork c.tbl added}")] else []) ++
+      [(lighterShape, s!"displaced work {sumWork c.tbl removed}, new work {sumWork c.tbl added}")] else []) ++
     (if !added.all c.tbl.valid then [("reorg-invalid", "the replacing branch contains an invalid header")] else [])
    else []) ++
   (if decide (sumWork c.tbl a.byh < sumWork c.tbl b.byh) && !excused then
-    [("work-decreased", s!"total work {sumWork c.tbl b.byh} -> {sumWork c.tbl a.byh}")] else [])
+    [(decreasedShape, s!"total work {sumWork c.tbl b.byh} -> {sumWork c.tbl a.byh}")] else [])
 
 /-- what the property requires of the store after a `headers` event, given the store before -/
 inductive Expect where
